@@ -2,7 +2,6 @@ package interpreter
 
 import (
 	"fmt"
-	"sort"
 	"strings"
 
 	"github.com/truora/minidyn/types"
@@ -87,11 +86,14 @@ func (ni *Native) getMatcher(tablename, expression string, kind ExpressionType) 
 	return matcher, nil
 }
 
-func hashExpressionKey(s string) string {
-	out := strings.Split(strings.TrimSpace(s), "")
-	sort.Strings(out)
+func isExpressionSpace(r rune) bool {
+	return r == ' ' || r == '\t' || r == '\n' || r == '\r'
+}
 
-	return strings.Join(out, "")
+// hashExpressionKey normalizes the expression text: surrounding whitespace is
+// dropped and repeated whitespace collapses into a single space.
+func hashExpressionKey(s string) string {
+	return strings.Join(strings.FieldsFunc(s, isExpressionSpace), " ")
 }
 
 // AddUpdater add expression updater to use on key or filter queries
